@@ -89,7 +89,7 @@ def _gains(rng, shape, decades, real_positive=False):
 
 def _opts(case, rng, L, N, kind):
     wca = case.get('wca', (-1,))
-    opts = dict(weight_constant_axis=tuple(wca) if isinstance(wca, (list, tuple)) else wca)
+    opts = dict(weight_constant_axis=tuple(wca) if isinstance(wca, (list, tuple)) else int(wca))
     if case.get('saliency'):
         opts['saliency'] = rng.uniform(0.2, 2.0, size=(*L, N))
     return opts
